@@ -275,6 +275,6 @@ func genValidCases(r *RNG, thorough bool) []string {
 }
 
 func runValid(seed uint64, n int, out string, replay string) {
-	p := profileSpec{"valid", func(r *RNG, _ int) []string { return genValidCases(r, n > 1) }, func() []Monitor { return nil }}
+	p := profileSpec{name: "valid", gen: func(r *RNG, _ int) []string { return genValidCases(r, n > 1) }, monitors: func() []Monitor { return nil }}
 	runChainProfile(p, seed, 1, out, replay, 0)
 }
